@@ -149,7 +149,7 @@ pub struct Ctor {
     pub x: Fl,
     /// 0 mjd_tai 1 mjd_utc 2 jde_tai 3 jde_utc 4 mjd_in(TT) 5 jde_in(TT) 6 unix_seconds 7 unix_milliseconds 8 unix_duration(ns) 9 jde_et 10 jde_tdb
     /// 11 mjd gpst 12 jde gst 13 tai_seconds 14 tai_days 15 utc_seconds 16 utc_days
-    /// 17-24 from_mjd/jde_{gpst,qzsst,gst,bdt} wrappers; 25-32 from_{gpst,qzsst,gst,bdt}_{seconds,days}
+    /// 17-24 from_mjd/jde_{gpst,qzsst,gst,bdt} wrappers; 25-32 from_{gpst,qzsst,gst,bdt}_{seconds,days}; 33 from_tt_seconds
     pub k: u8,
 }
 
@@ -166,7 +166,7 @@ fn ctor_strategy() -> BS<Ctor> {
         // the days that end with a leap second, and the days either side, with a fraction (UTC days of 86 401 s)
         (2, (1usize..28, -1i64..=1, any::<u64>()).prop_map(|(i, dd, r)| (leap_table()[i].0 / 86_400 - 1 + dd) as f64 + (r >> 11) as f64 / (1u64 << 53) as f64).boxed()),
     ]);
-    (days, 0u8..33, -1i64..=1)
+    (days, 0u8..34, -1i64..=1)
         .prop_map(|(d, k, ulps)| {
             let x = match k {
                 0 | 1 | 4 | 11 => d + 15_020.0,
@@ -174,7 +174,7 @@ fn ctor_strategy() -> BS<Ctor> {
                 6 => (d - 25_567.0) * 86_400.0,
                 7 => (d - 25_567.0) * 86_400_000.0,
                 8 => ((d - 25_567.0) * 86_400.0 * 1e9).trunc(),
-                13 | 15 | 25 | 27 | 29 | 31 => d * 86_400.0,
+                13 | 15 | 25 | 27 | 29 | 31 | 33 => d * 86_400.0,
                 17..=20 => d + 15_020.0,
                 21..=24 => d + 2_415_020.5,
                 _ => d,
@@ -241,7 +241,8 @@ fn ctor_oracle(c: &Ctor) -> Verdict {
         29 => (lib!(Epoch::from_gst_seconds(x).to_gst_seconds()), 0.0, 1e-9, 0.0),
         30 => (lib!(Epoch::from_gst_days(x).to_gst_days()), 0.0, 1.0 / NS_D as f64, 0.0),
         31 => (lib!(Epoch::from_bdt_seconds(x).to_bdt_seconds()), 0.0, 1e-9, 0.0),
-        _ => (lib!(Epoch::from_bdt_days(x).to_bdt_days()), 0.0, 1.0 / NS_D as f64, 0.0),
+        32 => (lib!(Epoch::from_bdt_days(x).to_bdt_days()), 0.0, 1.0 / NS_D as f64, 0.0),
+        _ => (lib!(Epoch::from_tt_seconds(x).to_tt_seconds()), 0.0, 1e-9, 0.0),
     };
     // the GNSS float constructors must also land in the scale they name
     if (25..=32).contains(&c.k) {
@@ -270,6 +271,7 @@ fn ctor_oracle(c: &Ctor) -> Verdict {
             14 => Some((lib!(Epoch::from_tai_days(x)), f64_trunc_i128(x * NS_D as f64), TimeScale::TAI)),
             15 => Some((lib!(Epoch::from_utc_seconds(x)), f64_trunc_i128(x * 1e9), TimeScale::UTC)),
             16 => Some((lib!(Epoch::from_utc_days(x)), f64_trunc_i128(x * NS_D as f64), TimeScale::UTC)),
+            33 => Some((lib!(Epoch::from_tt_seconds(x)), f64_trunc_i128(x * 1e9), TimeScale::TT)),
             _ => None,
         };
         if let Some((e, want, ts)) = exact {
